@@ -1,5 +1,6 @@
 """A streaming reader for DiffX files."""
 
+import codecs
 import io
 import json
 import os
@@ -479,6 +480,30 @@ class DiffXReader(object):
         fp = self._fp
         content = fp.read(length)
 
+        if not content:
+            raise DiffXParseError(
+                'Expected %s bytes of content, but reached the end of the '
+                'file'
+                % length,
+                linenum=self._linenum)
+
+        if encoding is not None:
+            # Make sure we can work with this encoding before we try to use
+            # it for the newlines and the content.
+            try:
+                codecs.lookup(encoding)
+            except (LookupError, TypeError):
+                raise DiffXParseError(
+                    'Unknown encoding "%s"' % encoding,
+                    linenum=self._linenum)
+
+        if indent is not None and (not isinstance(indent, int) or indent < 0):
+            raise DiffXParseError(
+                'Expected the indent option to be a number of spaces, not '
+                '"%s"'
+                % indent,
+                linenum=self._linenum)
+
         # First, determine the line endings that we're going to be working
         # with.
         if line_endings:
@@ -506,7 +531,13 @@ class DiffXReader(object):
             # or due to some error the indentation on some line may be
             # wrong. Be careful to strip only the spaces, up to the specified
             # indentation level.
-            indent_re = re.compile(br'^ {1,%d}' % indent)
+            try:
+                indent_re = re.compile(br'^ {1,%d}' % indent)
+            except OverflowError:
+                raise DiffXParseError(
+                    'The indent option (%s) is too large' % indent,
+                    linenum=self._linenum)
+
             content = b''.join(
                 indent_re.sub(b'', _line)
                 for _line in lines
@@ -515,7 +546,13 @@ class DiffXReader(object):
         if encoding and not keep_bytes:
             # We know what this content was encoded with. We can now decode
             # it.
-            content = content.decode(encoding)
+            try:
+                content = content.decode(encoding)
+            except UnicodeError:
+                raise DiffXParseError(
+                    'The content could not be decoded as "%s"' % encoding,
+                    linenum=self._linenum)
+
             newline = newline.decode(encoding)
 
         # Validate that the content ends in a newline. This is to ensure that
